@@ -249,9 +249,16 @@ async fn apply_remote_deletes(
             for rel in dels {
                 let _ = write!(list, "{}/{}\0", remote_root, rel.display());
             }
+            // The far side removes nothing unless the whole list arrived: if this
+            // process dies while writing it, `xargs` would otherwise run `rm` on a
+            // truncated last entry, which names some other path.
+            let cmd = format!(
+                "t=$(mktemp) && cat > \"$t\" && [ \"$(wc -c < \"$t\")\" -eq {} ] && xargs -0 rm -f -- < \"$t\"; rm -f \"$t\"",
+                list.len()
+            );
             if let Ok(mut child) = tokio::process::Command::new("ssh")
                 .arg(host)
-                .arg("xargs -0 rm -f --")
+                .arg(cmd)
                 .stdin(std::process::Stdio::piped())
                 .stdout(std::process::Stdio::null())
                 .stderr(std::process::Stdio::piped())
